@@ -62,6 +62,12 @@ type LeaseManager struct {
 	session *concurrency.Session
 
 	acquireFlight singleflight.Group
+
+	// releaseMu serialises Release (writer) with in-flight acquires (readers).
+	// Without it a Release that has already dropped local ownership can race
+	// this broker's own re-acquire of the same resource and delete the key
+	// the re-acquire has just written.
+	releaseMu sync.RWMutex
 }
 
 // NewLeaseManager creates a lease manager backed by the given etcd client.
@@ -121,6 +127,9 @@ func (m *LeaseManager) Acquire(ctx context.Context, resourceID string) error {
 }
 
 func (m *LeaseManager) doAcquire(ctx context.Context, resourceID string) error {
+	m.releaseMu.RLock()
+	defer m.releaseMu.RUnlock()
+
 	// Re-check under read lock.
 	m.mu.RLock()
 	if _, ok := m.owned[resourceID]; ok {
@@ -270,11 +279,23 @@ func (m *LeaseManager) Owns(resourceID string) bool {
 }
 
 // Release explicitly gives up ownership of a single resource.
+//
+// The etcd key is removed only if it still carries this broker's ID and is
+// still attached to the session that was current when the release started.
+// If the session expired in the meantime another broker may already have
+// acquired the lease; its key must not be touched.
 func (m *LeaseManager) Release(resourceID string) {
+	m.releaseMu.Lock()
+	defer m.releaseMu.Unlock()
+
 	m.mu.Lock()
 	_, ok := m.owned[resourceID]
+	var leaseID clientv3.LeaseID
 	if ok {
 		delete(m.owned, resourceID)
+		if m.session != nil {
+			leaseID = m.session.Lease()
+		}
 	}
 	m.mu.Unlock()
 
@@ -282,7 +303,14 @@ func (m *LeaseManager) Release(resourceID string) {
 		leaseKey := m.leaseKey(resourceID)
 		ctx, cancel := context.WithTimeout(context.Background(), 5*time.Second)
 		defer cancel()
-		if _, err := m.client.Delete(ctx, leaseKey); err != nil {
+		_, err := m.client.Txn(ctx).
+			If(
+				clientv3.Compare(clientv3.Value(leaseKey), "=", m.brokerID),
+				clientv3.Compare(clientv3.LeaseValue(leaseKey), "=", leaseID),
+			).
+			Then(clientv3.OpDelete(leaseKey)).
+			Commit()
+		if err != nil {
 			m.logger.Warn(fmt.Sprintf("failed to delete %s lease key", m.resourceKind),
 				"key", leaseKey, "error", err)
 		}
